@@ -14,6 +14,7 @@ MODELS = [
     'llvm.threadlocal.address: base of the current simulated thread\'s instance',
     'std::sys::thread_local::destructors::register: records the destructor for verif_thread_exit',
     'futex/park/yield/sleep: BLOCKING event',
+    'alloc::sync::arcinner_layout_for_value_layout: computed (16-byte header + value, padded)',
     'std::panicking::panic_count::GLOBAL_PANIC_COUNT (external static): reads as 0 (no panic in progress)',
     'verif_nondet_u64/assume/assert/cover/mark/set_thread/thread_exit/user_panic: harness interface',
 ]
@@ -78,6 +79,16 @@ def call_external(eng, st, fr, ins, name, args):
                 return eng.start_unwind_here(st, fr, ins) or 'unwound'
             st.status = 'panicked'
             return None
+    if name.endswith('32arcinner_layout_for_value_layout'):
+        # alloc::sync::arcinner_layout_for_value_layout(Layout{align,size}) -> Layout of ArcInner<T>:
+        # two usize counters, then the value at its alignment, padded to the overall alignment
+        al, sz = args[0], args[1]
+        if not (is_conc(al) and is_conc(sz)):
+            raise Unsupported('symbolic layout')
+        a = max(al, 8)
+        off = (16 + al - 1) // al * al
+        regs[dest] = (a, (off + sz + a - 1) // a * a)
+        return None
     if 'destructors' in name and name.endswith('8register'):
         p, f = args
         st.tls_dtors.setdefault(st.thread, []).append((p, f))
